@@ -16,7 +16,21 @@ Definition chain_ok (t : table) : Prop :=
   (exists pre, tchain t = pre ++ [town t] /\ ~ In (town t) pre) /\ incl (tchain t) (keys (tb t)).
 Definition node_seen_ok (n : node) : Prop := nseen n < u32 - 1.
 Definition seen_ok (bs : list bucket) : Prop := Forall (fun b => Forall node_seen_ok (bnodes b)) bs.
-Definition aux (ownid : N) (t : table) : Prop := own_in_town ownid t /\ chain_ok t /\ seen_ok (tb t).
+(* sizes of the buckets along the parent/child chain, root first: every parent is twice as wide as
+   its child, except that the last two (the own bucket and its sibling) have the same width *)
+Definition bsize (b : bucket) : N := bhi b + 1 - blo b.
+Definition size_of_key (bs : list bucket) (k : N) : N := match get_bucket k bs with Some b => bsize b | None => 0 end.
+Definition cw (t : table) : list N := map (size_of_key (tb t)) (tchain t).
+Fixpoint wok (l : list N) : Prop :=
+  match l with
+  | [] => True
+  | a :: t => match t with
+              | [] => True
+              | [b] => a = b
+              | b :: _ :: _ => a = 2 * b /\ wok t
+              end
+  end.
+Definition aux (ownid : N) (t : table) : Prop := own_in_town ownid t /\ chain_ok t /\ seen_ok (tb t) /\ wok (cw t).
 Definition tabinv (ownid : N) (t : table) : Prop := tinv (tb t) /\ aux ownid t.
 
 (* ---------------------------------------------------------------- generic lemmas *)
@@ -72,13 +86,40 @@ Proof.
     rewrite E'. apply IH; assumption.
 Qed.
 
+Lemma size_of_key_map_bucket : forall k f bs j, (forall b, blo (f b) = blo b /\ bhi (f b) = bhi b) ->
+  size_of_key (map_bucket k f bs) j = size_of_key bs j.
+Proof.
+  intros k f bs j R. unfold size_of_key. induction bs as [|b0 r IH]; simpl; [reflexivity|].
+  destruct (R b0) as [A B].
+  assert (E : bhi (if bhi b0 =? k then f b0 else b0) = bhi b0) by (destruct (bhi b0 =? k); [assumption|reflexivity]).
+  rewrite E. destruct (bhi b0 =? j); [|exact IH].
+  destruct (bhi b0 =? k); [unfold bsize; rewrite A, B|]; reflexivity.
+Qed.
+Lemma size_of_key_map : forall g bs j, (forall b, blo (g b) = blo b /\ bhi (g b) = bhi b) ->
+  size_of_key (map g bs) j = size_of_key bs j.
+Proof.
+  intros g bs j R. unfold size_of_key. induction bs as [|b0 r IH]; simpl; [reflexivity|].
+  destruct (R b0) as [A B]. rewrite B. destruct (bhi b0 =? j); [unfold bsize; rewrite A, B; reflexivity|exact IH].
+Qed.
+
+Lemma wok_split : forall ps h, wok (ps ++ [2 * h]) -> wok (ps ++ [h; h]).
+Proof.
+  induction ps as [|a ps IH]; intros h H; [reflexivity|].
+  destruct ps as [|b ps]; [simpl in *; split; [assumption|reflexivity]|].
+  destruct ps as [|c ps].
+  - simpl in *. destruct H as [H1 H2]. split; [assumption|]. split; [assumption|reflexivity].
+  - change (wok (a :: (b :: c :: ps) ++ [h; h])). change (wok (a :: (b :: c :: ps) ++ [2 * h])) in H.
+    simpl in H. simpl. destruct H as [H1 H2]. split; [assumption|]. apply (IH h). exact H2.
+Qed.
+
 (* in-place bucket updates keep everything that is about ranges, chain and own bucket *)
 Lemma aux_map_bucket : forall ownid t k f,
   (forall b, blo (f b) = blo b /\ bhi (f b) = bhi b) ->
   (forall b, Forall node_seen_ok (bnodes b) -> Forall node_seen_ok (bnodes (f b))) ->
   aux ownid t -> aux ownid (mkTable (map_bucket k f (tb t)) (tchain t) (town t)).
 Proof.
-  intros ownid t k f R SN [[ob [G [O1 O2]]] [[CP CI] S]]. unfold aux. simpl. split; [|split].
+  intros ownid t k f R SN [[ob [G [O1 O2]]] [[CP CI] [S WK]]]. unfold aux. simpl. split; [|split; [|split]].
+  4:{ unfold cw in *. simpl. erewrite map_ext; [exact WK|]. intros j. apply size_of_key_map_bucket. assumption. }
   - unfold own_in_town. simpl. rewrite (get_map_bucket_any _ k f _ ob (fun b => proj2 (R b)) G).
     destruct (bhi ob =? k); [destruct (R ob) as [A B]; eexists; split; [reflexivity|]; rewrite A, B; split; assumption|].
     eexists; split; [reflexivity|split; assumption].
@@ -92,7 +133,8 @@ Lemma aux_map : forall ownid t g,
   (forall b, Forall node_seen_ok (bnodes b) -> Forall node_seen_ok (bnodes (g b))) ->
   aux ownid t -> aux ownid (mkTable (map g (tb t)) (tchain t) (town t)).
 Proof.
-  intros ownid t g R SN [[ob [G [O1 O2]]] [[CP CI] S]]. unfold aux. simpl. split; [|split].
+  intros ownid t g R SN [[ob [G [O1 O2]]] [[CP CI] [S WK]]]. unfold aux. simpl. split; [|split; [|split]].
+  4:{ unfold cw in *. simpl. erewrite map_ext; [exact WK|]. intros j. apply size_of_key_map. assumption. }
   - unfold own_in_town. simpl. exists (g ob). destruct (R ob) as [A B]. rewrite A, B. split; [|split; assumption].
     clear - G R. revert G. induction (tb t) as [|b0 r IH]; simpl; [discriminate|].
     destruct (R b0) as [_ B0]. rewrite B0. destruct (bhi b0 =? town t); intros G; [inversion G; reflexivity|apply IH; assumption].
@@ -206,7 +248,8 @@ Lemma split_own : forall ownid ndid b t kk t' k' bad,
   split_bucket ownid ndid b t = (t', k', bad) ->
   bad = false /\ aux ownid t' /\ (forall r, In r (ranges (tb t)) -> r <> (blo b, bhi b) -> In r (ranges (tb t'))).
 Proof.
-  intros ownid ndid b t kk t' k' bad [T [[ob [Gob [O1 O2]]] [[[pre [CP NP]] CI] SO]]] G Fu P Kk N1 N2 S.
+  intros ownid ndid b t kk t' k' bad [T [[ob [Gob [O1 O2]]] [[[pre [CP NP]] CI] [SO WK]]]] G Fu P Kk N1 N2 S.
+  pose proof T as T0.
   rewrite G in Gob. inversion Gob; subst ob. clear Gob.
   destruct (split_tinv _ _ _ _ _ _ _ _ _ T G Fu P Kk N1 N2 S) as [T' [_ [_ [_ [_ [_ [REST _]]]]]]].
   destruct (get_bucket_in _ _ _ G) as [I Hk].
@@ -245,13 +288,33 @@ Proof.
   assert (RS : forall r, In r (ranges (tb t)) -> r <> (blo b, bhi b) -> In r (ranges bs')).
   { intros r Hr Nr. unfold ranges in *. apply in_map_iff in Hr. destruct Hr as [x [E Ix]]. apply in_map_iff. exists x. split; [assumption|].
     inversion S; subst t'. apply REST; [assumption|]. intro; subst; contradiction. }
+  (* chain widths *)
+  assert (E2 : 2 ^ kk = 2 * 2 ^ (kk - 1)).
+  { replace kk with (N.succ (kk - 1)) at 1 by lia. rewrite N.pow_succ_r'. reflexivity. }
+  assert (Sb : bsize b = 2 * 2 ^ (kk - 1)) by (unfold bsize; destruct P as [P1 _]; lia).
+  assert (St : bsize this = 2 ^ (kk - 1)) by (unfold bsize, this, mid; simpl; destruct P as [P1 _]; lia).
+  assert (So : bsize other = 2 ^ (kk - 1)) by (unfold bsize, other, mid; simpl; lia).
+  assert (T'' : tinv bs') by (inversion S; subst t'; exact T').
+  assert (PRE : map (size_of_key bs') pre = map (size_of_key (tb t)) pre).
+  { apply map_ext_in. intros x Hx.
+    assert (Kx : In x (keys (tb t))) by (apply CI; rewrite CP; apply in_or_app; left; assumption).
+    unfold keys in Kx. apply in_map_iff in Kx. destruct Kx as [y [Ey Iy]].
+    assert (Ny : y <> b) by (intro; subst y; apply NP; rewrite Tn, Ey; assumption).
+    assert (Iy' : In y bs') by (inversion S; subst t'; apply REST; assumption).
+    unfold size_of_key. rewrite <- Ey. rewrite (get_bucket_of_in bs' y T'' Iy'), (get_bucket_of_in (tb t) y T0 Iy). reflexivity. }
+  assert (WKo : wok (map (size_of_key (tb t)) pre ++ [2 * 2 ^ (kk - 1)])).
+  { unfold cw in WK. rewrite CP, map_app in WK. simpl in WK. unfold size_of_key at 2 in WK. rewrite G, Sb in WK. exact WK. }
+  apply wok_split in WKo.
   destruct (in_range other ownid) eqn:IR.
   - (* the own id is in the lower half: the new bucket becomes the own bucket *)
     rewrite CP, Tn, (insert_after_last pre (bhi b) mid) in S by (rewrite <- Tn; assumption).
     rewrite (next_after pre (bhi b) mid) in S by (rewrite <- Tn; assumption).
     assert (GO : get_bucket mid bs' = Some other) by (apply (get_bucket_of_in bs' other); [inversion S; subst t'; exact T'|assumption]).
     rewrite GO in S. rewrite IR in S. simpl in S. inversion S; subst t' k' bad. split; [reflexivity|]. split; [|exact RS].
-    unfold aux. simpl. split; [|split; [|exact SO']].
+    unfold aux. simpl. split; [|split; [|split; [exact SO'|]]].
+    3:{ unfold cw. simpl. rewrite map_app, PRE. simpl. unfold size_of_key at 2 3. rewrite GO.
+        replace (get_bucket (bhi b) bs') with (Some this) by (symmetry; apply (get_bucket_of_in bs' this T'' INt)).
+        rewrite St, So. exact WKo. }
     + exists other. split; [exact GO|]. unfold in_range in IR. simpl in IR. apply andb_true_iff in IR.
       destruct IR as [A B]. apply N.leb_le in A. apply N.leb_le in B. simpl. split; assumption.
     + unfold chain_ok. simpl. split.
@@ -272,7 +335,10 @@ Proof.
     { unfold in_range in *. simpl in *. apply andb_false_iff in IR. apply andb_true_iff. split; apply N.leb_le;
         destruct IR as [X|X]; apply N.leb_gt in X; lia. }
     rewrite IT in S. simpl in S. inversion S; subst t' k' bad. split; [reflexivity|]. split; [|exact RS].
-    unfold aux. simpl. split; [|split; [|exact SO']].
+    unfold aux. simpl. split; [|split; [|split; [exact SO'|]]].
+    3:{ unfold cw. simpl. rewrite map_app, PRE. simpl. unfold size_of_key at 2 3. rewrite GT.
+        replace (get_bucket mid bs') with (Some other) by (symmetry; apply (get_bucket_of_in bs' other T'' INo)).
+        rewrite St, So. exact WKo. }
     + exists this. split; [exact GT|]. unfold in_range in IT. simpl in IT. apply andb_true_iff in IT.
       destruct IT as [A B]. apply N.leb_le in A. apply N.leb_le in B. simpl. split; assumption.
     + unfold chain_ok. simpl. split.
@@ -322,7 +388,7 @@ Proof.
   pose proof (tinv_bucket _ _ _ T G) as OKb.
   destruct (get_bucket_in _ _ _ G) as [Ib Hb].
   assert (Sb : Forall node_seen_ok (bnodes b)).
-  { destruct A as [_ [_ S]]. unfold seen_ok in S. rewrite Forall_forall in S. apply S. assumption. }
+  { destruct A as [_ [_ [S _]]]. unfold seen_ok in S. rewrite Forall_forall in S. apply S. assumption. }
   destruct (is_full b) eqn:Fu; simpl.
   2:{ split; [|split].
       - apply aux_map_bucket; [intros; split; reflexivity|intros; apply seen_add; assumption|assumption].
@@ -605,7 +671,7 @@ Qed.
 
 Lemma init_sI : forall ownid c p t0, ownid < idspace -> sI (init ownid c p t0).
 Proof.
-  intros ownid c p t0 Ho. split; [|reflexivity]. split; [apply init_sinv|]. unfold aux. simpl. split; [|split].
+  intros ownid c p t0 Ho. split; [|reflexivity]. split; [apply init_sinv|]. unfold aux. simpl. split; [|split; [|split; [|exact I]]].
   - exists (init_bucket t0). split; [vm_compute; reflexivity|]. unfold init_bucket; cbn [blo bhi]. split; lia.
   - split; [exists []; split; [reflexivity|intros []]|]. simpl. intros x Hx. exact Hx.
   - constructor; [constructor|constructor].
